@@ -14,6 +14,8 @@ import PacketVerif.Drv.Dhcp4Restart
 import PacketVerif.Drv.Dhcp4Opt
 import PacketVerif.Drv.Handlers
 import PacketVerif.Drv.Ssdp
+import PacketVerif.Drv.PingMulti
+import PacketVerif.Drv.MdnsHist
 open PV
 
 /-- dispatch one protocol line to the module that knows the op -/
@@ -37,7 +39,9 @@ def dispatch (line : String) : String :=
       Drv.Dhcp4Restart.handle,
       Drv.Dhcp4Opt.handle,
       Drv.Handlers.handle,
-      Drv.Ssdp.handle
+      Drv.Ssdp.handle,
+      Drv.PingMulti.handle,
+      Drv.MdnsHist.handle
     ]
     match hs.findSome? (fun h => h cmd args) with
     | some r => r
